@@ -430,4 +430,176 @@ theorem batch_step_items (env : Env) (fuel : Nat) (o : InOpts) (w : BWin) (body 
   · simp only [hg, Bool.false_eq_true, if_false] at h
     exact key .none _ h
 
+/-! ### the prologue and the epilogue of `renderwob` -/
+
+/-- go on with a result, hand an exception / return / out-of-fuel up -/
+def contR {α γ : Type} (r : Res α × St) (k : α → St → Res γ × St) : Res γ × St :=
+  match r with
+  | (.ok a, s) => k a s
+  | (.raise e, s) => (.raise e, s)
+  | (.ret v, s) => (.ret v, s)
+  | (.oom, s) => (.oom, s)
+
+theorem oneRes_contR {α : Type} (r : Res α × St) (k : α → St → Res Piece × St) :
+    oneRes (contR r k) = contR r (fun a s => oneRes (k a s)) := by
+  rcases r with ⟨r, s⟩
+  cases r <;> simp [contR, oneRes]
+
+theorem sortPart_key (env : Env) (o : InOpts) (x : InXOpts) (k : Option Text) (xs : List Val) (st : St) :
+    sortPart env o { x with sortKey := k } xs st = sortPart env o { sortKey := k } xs st := rfl
+
+/-- the sort step of the source (`sort_expr` wins over `sort=`) is `evalSortKey` followed by `sortPart` -/
+theorem sort_step_eq {γ : Type} (env : Env) (f : Nat) (o : InOpts) (x : InXOpts) (V : Val) (st : St) (K : List Val → St → Res γ × St) :
+    contR (inSortGen env (f + 1) o x V st) (fun v s => K (seqItems v) s) =
+      contR (evalSortKey env (f + 1) x st) (fun key sA => contR (sortPart env o { x with sortKey := key } (seqItems V) sA) K) := by
+  unfold inSortGen evalSortKey
+  simp only [sortPart_key]
+  cases hse : x.sortExpr with
+  | none =>
+    simp only []
+    cases hsk : x.sortKey with
+    | none => simp [contR, sortPart]
+    | some k =>
+      simp only [contR, sortSequence]
+      generalize sortPart env o { sortKey := some k } (seqItems V) st = r
+      rcases r with ⟨r, s⟩
+      cases r <;> simp [seqItems]
+  | some e =>
+    simp only [sortExprEval]
+    generalize evalExpr env f e st = r
+    rcases r with ⟨r, s⟩
+    cases r with
+    | ok v =>
+      cases v <;> simp only [contR]
+      case str t =>
+        simp only [sortSequence]
+        generalize sortPart env o { sortKey := some t } (seqItems V) s = r
+        rcases r with ⟨r, s'⟩
+        cases r <;> simp [seqItems]
+    | raise e => simp [contR]
+    | ret v => simp [contR]
+    | oom => simp [contR]
+
+/-- the reverse step of the source (`reverse_expr` true, or else `reverse`) is `evalReverse` followed by `applyReverse` -/
+theorem reverse_step_eq {γ : Type} (env : Env) (f : Nat) (o : InOpts) (x : InXOpts) (V : Val) (st : St) (K : List Val → St → Res γ × St) :
+    contR (inReverseGen env (f + 1) o x V st) (fun v s => K (seqItems v) s) =
+      contR (evalReverse env (f + 1) x st) (fun rev s1 => K (applyReverse rev (seqItems V)) s1) := by
+  unfold inReverseGen evalReverse
+  cases hre : x.reverseExpr with
+  | none =>
+    simp only []
+    by_cases hr : x.reverse = true <;> simp [contR, hr, applyReverse, reverseSequence, seqItems]
+  | some e =>
+    simp only [exprTruth]
+    generalize evalExpr env f e st = r
+    rcases r with ⟨r, s⟩
+    cases r with
+    | ok v =>
+      by_cases ht : truthy v = true <;> by_cases hr : x.reverse = true <;>
+        simp [contR, ht, hr, applyReverse, reverseSequence, seqItems]
+    | raise e => simp [contR]
+    | ret v => simp [contR]
+    | oom => simp [contR]
+
+/-- what `renderBlk` does on dtml-in once the sequence is arranged (no batch): the frames pushed, `inLoop`, the pops, the join -/
+def loopPart (env : Env) (fuel : Nat) (o : InOpts) (body : List Blk) (ys : List Val) (cache : List Frame) (s1 : St) : Res (List Piece) × St :=
+  let sv : SeqVars := { items := ys, mapping := o.mapping, prefix_ := o.prefix_ }
+  let (r, st2) := inLoop env fuel sv o body 0 { s1 with stack := (Frame.seq sv :: cache) ++ s1.stack }
+  let st3 := { st2 with stack := st2.stack.drop (Frame.seq sv :: cache).length }
+  (match r with
+   | .ok ps =>
+     (match joinUnicode env ps with
+      | .ok p => (.ok (if pieceEmpty p then [] else [p]), st3)
+      | .raise e => (.raise e, st3)
+      | _ => (.oom, st3))
+   | .raise e => (.raise e, st3)
+   | .ret x => (.ret x, st3)
+   | .oom => (.oom, st3))
+
+/-- the construction of the variables, the pushes, the loop, the join and the pops of the source are `loopPart` -/
+theorem render_eq (env : Env) (fuel : Nat) (o : InOpts) (body : List Blk) (ys : List Val) (cache : Option Frame) (s1 : St) :
+    oneRes (inRenderGen env fuel o body (.list ys) cache s1) = loopPart env fuel o body ys cache.toList s1 := by
+  unfold inRenderGen loopPart
+  simp only [seqItems]
+  have hl := in_loop_eq env o body fuel { items := ys, mapping := o.mapping, prefix_ := o.prefix_ } 0
+  simp only [show inLoopStart = 0 from rfl]
+  cases cache with
+  | none =>
+    simp only [Option.toList, List.cons_append, List.nil_append, List.length_cons, List.length_nil]
+    rw [hl _ rfl]
+    generalize inLoop env fuel _ o body 0 _ = r
+    rcases r with ⟨r, st2⟩
+    cases r with
+    | ok ps =>
+      simp only [joinResult]
+      cases joinUnicode env ps <;> simp [oneRes]
+    | raise e => simp [joinResult, oneRes]
+    | ret v => simp [joinResult, oneRes]
+    | oom => simp [joinResult, oneRes]
+  | some c =>
+    simp only [Option.toList, List.cons_append, List.nil_append, List.length_cons, List.length_nil]
+    rw [hl _ rfl]
+    generalize inLoop env fuel _ o body 0 _ = r
+    rcases r with ⟨r, st2⟩
+    cases r with
+    | ok ps =>
+      simp only [joinResult]
+      cases joinUnicode env ps <;> simp [oneRes]
+    | raise e => simp [joinResult, oneRes]
+    | ret v => simp [joinResult, oneRes]
+    | oom => simp [joinResult, oneRes]
+
+def K2 (env : Env) (f : Nat) (o : InOpts) (body : List Blk) (cache : Option Frame) (ys : List Val) (s : St) : Res Piece × St :=
+  inRenderGen env (f + 1) o body (.list ys) cache s
+
+def K1 (env : Env) (f : Nat) (o : InOpts) (x : InXOpts) (body : List Blk) (cache : Option Frame) (ys : List Val) (s : St) :
+    Res Piece × St :=
+  contR (evalReverse env (f + 1) x s) (fun rev s1 => K2 env f o body cache (applyReverse rev ys) s1)
+
+/-- the steps between the emptiness probe and the loop, in the order of the source: sort, then reverse -/
+theorem arrange_eq (env : Env) (f : Nat) (o : InOpts) (x : InXOpts) (body : List Blk) (els : Option (List Blk)) (V : Val)
+    (cache : Option Frame) (st : St) (hs : isStr V = false) (hp : seqItems V ≠ []) :
+    oneRes (inArrangeGen env (f + 1) o x body els V cache st) =
+      contR (evalSortKey env (f + 1) x st) (fun key sA =>
+        contR (sortPart env o { x with sortKey := key } (seqItems V) sA) (fun sorted sB =>
+          contR (evalReverse env (f + 1) x sB) (fun rev s1 =>
+            loopPart env (f + 1) o body (applyReverse rev sorted) cache.toList s1))) := by
+  have hprobe : seqProbe V 0 = true := by
+    simp only [seqProbe, decide_eq_true_eq]
+    have : (seqItems V).length > 0 := List.length_pos_iff.mpr hp
+    omega
+  have h0 : inArrangeGen env (f + 1) o x body els V cache st =
+      contR (inSortGen env (f + 1) o x V st) (fun v s =>
+        contR (inReverseGen env (f + 1) o x v s) (fun v' s' => inRenderGen env (f + 1) o body v' cache s')) := by
+    unfold inArrangeGen
+    simp only [hs, hprobe, Bool.false_eq_true, if_false, if_true]
+    generalize inSortGen env (f + 1) o x V st = r
+    rcases r with ⟨r, s⟩
+    cases r with
+    | ok v =>
+      simp only [contR]
+      generalize inReverseGen env (f + 1) o x v s = r2
+      rcases r2 with ⟨r2, s2⟩
+      cases r2 <;> rfl
+    | raise e => rfl
+    | ret v => rfl
+    | oom => rfl
+  have hB : ∀ v s, contR (inReverseGen env (f + 1) o x v s) (fun v' s' => inRenderGen env (f + 1) o body v' cache s') =
+      K1 env f o x body cache (seqItems v) s := by
+    intro v s
+    exact reverse_step_eq env f o x v s (K2 env f o body cache)
+  have e1 : inArrangeGen env (f + 1) o x body els V cache st =
+      contR (inSortGen env (f + 1) o x V st) (fun v s => K1 env f o x body cache (seqItems v) s) := by
+    rw [h0]
+    congr 1
+    funext v s
+    exact hB v s
+  rw [e1, sort_step_eq env f o x V st (K1 env f o x body cache)]
+  simp only [oneRes_contR]
+  congr 1
+  funext key sA
+  congr 1
+  funext sorted sB
+  simp only [K1, K2, oneRes_contR, render_eq]
+
 end DTML.Lemmas.InGen
